@@ -1647,12 +1647,22 @@ func (e *Eng) returnSites(fr *Frame, st *State, ret *ssa.Return) {
 	var all []*ssa.Return
 	for _, b := range e.fn.Blocks {
 		for _, in := range b.Instrs {
-			if r, ok := in.(*ssa.Return); ok && r.Pos().IsValid() {
+			if r, ok := in.(*ssa.Return); ok {
 				all = append(all, r)
 			}
 		}
 	}
-	sort.SliceStable(all, func(i, j int) bool { return all[i].Pos() < all[j].Pos() })
+	// source order; the implicit return at the end of the body (no position) comes last
+	sort.SliceStable(all, func(i, j int) bool {
+		pi, pj := all[i].Pos(), all[j].Pos()
+		if !pi.IsValid() {
+			return false
+		}
+		if !pj.IsValid() {
+			return true
+		}
+		return pi < pj
+	})
 	ord := 0
 	for i, r := range all {
 		if r == ret {
